@@ -422,7 +422,7 @@ def run(ctx):
                 if not ps:
                     foreign.append((y, 'an unidentified future'))
                     continue
-                pb, pt = max(ps, key=lambda x: x[0])
+                pb, pt = max(ps, key=lambda x: sum(1 for y_ in ps if GB.block_dominates(y_[0], x[0])))      # the innermost dominating poll (block numbers say nothing after inlining)
                 o = GB.origin(pt['args'][0])
                 fut = str(o[1]) if o and o[0] == 'call' else 'an unidentified future'
                 if fut.startswith('tokio::sync::mutex::Mutex') or fut.startswith('edp_client::connection::Connection::'):
